@@ -1,8 +1,8 @@
 SPECIFICATION TraceSpec
 CONSTANTS
   N = 4
-  MaxSteps = 100000
-  MaxQ = 100000
+  MaxSteps = 100000000
+  MaxQ = 100000000
   Ops <- Ops_all
   Pers <- Pers_all
   Dests = {"up", "down"}
@@ -14,6 +14,4 @@ CONSTANTS
   DownMode = "async"
   Deviations = {}
   RECORD = TRUE
-INVARIANTS NotAccepted AllClauses
-CONSTRAINT Track
-POSTCONDITION Report
+INVARIANTS AllClauses
